@@ -107,6 +107,13 @@ def stepLine (d : D) (ws : List String) : D × String :=
   | "produce" :: acks :: parts =>
     let (d', txt) := produce d (acks == "0") (parts.filterMap parsePart)
     (d', txt ++ " " ++ obs d')
+  | "xproduce" :: acks :: parts =>
+    -- the session is lost and the loss is first noticed by the `Done()` branch of getOrCreateSession inside this request's
+    -- Acquire (of a partition the broker does not own yet), before monitorSession gets the lock: as coded that branch drops
+    -- session AND ownership, i.e. it is `sessionLost` followed by the produce
+    let d1 := { d with l := (Lease.step .byRev d.l (.sessionLost 0)).1 }
+    let (d', txt) := produce d1 (acks == "0") (parts.filterMap parsePart)
+    (d', txt ++ " " ++ obs d')
   | ["gproduce", acks, part] =>
     let (d', txt) := produce d (acks == "0") ([part].filterMap parsePart)
     ({ d' with pending := some txt }, "parked " ++ obs d')
